@@ -588,3 +588,105 @@ def pin_constants(pairs):
         elif re.sub(r"[\s_]", "", m.group(1)) != re.sub(r"[\s_]", "", expected):
             bad.append("%s: expected %s, source has %s" % (label, expected, m.group(1)))
     return bad
+
+
+# --------------------------------------------------------- extraction cross-check (set model)
+def _coq_pairs(txt):
+    """'[k=t,k=t]' (hex) -> Coq list of pairs of N"""
+    body = txt.strip()[1:-1]
+    items = [x for x in body.split(",") if x]
+    return "[" + "; ".join("(%d, %d)" % tuple(int(y, 16) for y in it.split("=")) for it in items) + "]"
+
+
+def _xtoks(case, result):
+    """Translate one orswot case + the extracted model's output into a list of CrossCheck.xtok terms;
+    None when the case uses tokens the cross-check does not cover."""
+    t = case.split()
+    if len(t) < 4 or t[0] != "seq":
+        return None
+    nsrc = int(t[1])
+    if t[2] != "0":
+        return None
+    res = result.split()
+    out = []
+    ri = 0
+    for tok in t[3:]:
+        f = tok.split(":")
+        if ri >= len(res):
+            return None
+        r = res[ri]
+        if f[0] in ("i", "d") and len(f) == 4:
+            out.append("X%s %d%%nat %d %d %s" % (f[0].upper(), int(f[1]), int(f[2], 16), int(f[3], 16), "true" if r == "1" else "false"))
+        elif f[0] == "w" and len(f) == 3:
+            out.append("XW %d %d %s" % (int(f[1], 16), int(f[2], 16), "true" if r == "1" else "false"))
+        elif f[0] == "g" and len(f) == 2:
+            out.append("XG %d %s" % (int(f[1], 16), "None" if r == "none" else "(Some %d)" % int(r.split(":")[1], 16)))
+        elif f[0] == "p" and len(f) == 1:
+            if not r.startswith("p["):
+                return None
+            out.append("XP %s" % _coq_pairs(r[1:]))
+        elif f[0] == "S":
+            m = re.match(r"^E(\[[^\]]*\])D(\[[^\]]*\])B\[([01]*)\]$", r)
+            if not m:
+                return None
+            probes = [x for x in (f[1].split(",") if len(f) > 1 else []) if x]
+            if len(probes) != len(m.group(3)):
+                return None
+            out.append("XS [%s] %s %s [%s]" % (
+                "; ".join(str(int(x, 16)) for x in probes), _coq_pairs(m.group(1)), _coq_pairs(m.group(2)),
+                "; ".join("true" if c == "1" else "false" for c in m.group(3))))
+        else:
+            return None
+        ri += 1
+    if ri != len(res):
+        return None
+    return nsrc, out
+
+
+def crosscheck_orswot(ck, name="orswot", sample=150):
+    """Re-evaluates a sample of the set-model cases with vm_compute inside Coq (CrossCheck.xcheck) and
+    demands the outputs the extracted OCaml model printed.  Returns the number of cases checked."""
+    d = os.path.join(ck.work, name)
+    try:
+        cases = open(os.path.join(d, name + ".cases")).read().splitlines()
+        model = open(os.path.join(d, name + ".model")).read().splitlines()
+    except OSError:
+        return 0
+    n = min(len(cases), len(model))
+    if n == 0:
+        return 0
+    # a deterministic spread over the file, longer cases preferred
+    step = max(1, n // (sample * 4))
+    picked = []
+    for i in range(0, n, step):
+        x = _xtoks(cases[i], model[i])
+        if x and len(x[1]) >= 2:
+            picked.append((i, x))
+        if len(picked) >= sample:
+            break
+    if not picked:
+        return 0
+    lines = ["From stdpp Require Import gmap list.", "From Coq Require Import NArith.",
+             "From DC Require Import Ts Orswot CrossCheck.", "Open Scope N_scope.", ""]
+    for i, (nsrc, toks) in picked:
+        lines.append("Example x%d : xcheck (empty_set %d%%nat) [%s] = true.\nProof. vm_compute. reflexivity. Qed." % (
+            i, nsrc, "; ".join(toks)))
+    path = os.path.join(ck.work, "XCheck_%s.v" % name.replace("-", "_"))
+    with open(path, "w") as f:
+        f.write("\n".join(lines) + "\n")
+    ok, out = coq_make(os.path.join(COQ, "core"), ["CrossCheck.v"], 1200)
+    if not ok:
+        ck.proof["broken"].append({"file": "CrossCheck.v", "log": out[-1500:]})
+        return 0
+    rc, out = sh(["coqc", "-Q", os.path.join(COQ, "core"), "DC", path], cwd=ck.work, timeout=1200)
+    ck.log("extraction cross-check: %d sampled cases re-evaluated by vm_compute inside Coq: %s" % (
+        len(picked), "agree" if rc == 0 else "DISAGREE"))
+    if rc != 0:
+        bad = re.search(r"Example x(\d+)", out) or re.search(r'line (\d+)', out)
+        ck.broken_correspondence(name + "-extraction",
+                                 "vm_compute inside Coq disagrees with the extracted model: " + out[-1200:],
+                                 [cases[picked[0][0]]] if not bad else [])
+        return 0
+    ck.corr.setdefault("crosscheck", 0)
+    ck.corr["crosscheck"] += len(picked)
+    return len(picked)
